@@ -60,10 +60,10 @@ func (s *sys) listOne(pq *mPq, q *mScq, path []string) []string {
 		name.Ids = append(name.Ids, s.nameKeys[n].GetID())
 	}
 	// Queued operations of this invocation.
-	var direct []*mTask
-	for _, t := range q.queued {
-		if pathStr(t.path) == pathStr(path) {
-			direct = append(direct, t)
+	var direct []*mOp
+	for _, o := range q.queued {
+		if pathStr(o.path) == pathStr(path) {
+			direct = append(direct, o)
 		}
 	}
 	childSet := queuedChildSet(q, path)
@@ -81,14 +81,18 @@ func (s *sys) listOne(pq *mPq, q *mScq, path []string) []string {
 		}
 		return nil
 	}
-	var listed []*mTask
+	var listed []*mOp
 	for _, o := range ops.QueuedOperations {
 		t := s.m.tasks[o.ActionDigest.GetHash()]
-		if t == nil || t.state != tQueued || pathStr(t.path) != pathStr(path) || t.scq != q.key {
+		var mo *mOp
+		if t != nil {
+			mo = t.opAt(path)
+		}
+		if t == nil || t.state != tQueued || mo == nil || t.scq != q.key {
 			s.fail("C04", "list/unknown-operation", "ListQueuedOperations(%v) of %v lists %s which is not queued there in the model", path, q.key, o.ActionDigest.GetHash()[:6])
 			return nil
 		}
-		listed = append(listed, t)
+		listed = append(listed, mo)
 	}
 	if len(listed) != len(direct) {
 		s.fail("C04", "list/operations-count", "ListQueuedOperations(%v) of %v lists %d operations, the model has %d", path, q.key, len(listed), len(direct))
@@ -98,7 +102,7 @@ func (s *sys) listOne(pq *mPq, q *mScq, path []string) []string {
 		for j := i + 1; j < len(listed); j++ {
 			if directBefore(listed[j], listed[i]) {
 				s.fail("C04", "list/operations-order", "ListQueuedOperations(%v) lists %s (p%d d%v q@%v) before %s (p%d d%v q@%v), contrary to the documented order", path,
-					listed[i].letter, listed[i].prio, listed[i].dur, listed[i].queuedAt.Sub(epoch), listed[j].letter, listed[j].prio, listed[j].dur, listed[j].queuedAt.Sub(epoch))
+					listed[i].t.letter, listed[i].prio, listed[i].t.dur, listed[i].t.queuedAt.Sub(epoch), listed[j].t.letter, listed[j].prio, listed[j].t.dur, listed[j].t.queuedAt.Sub(epoch))
 				return nil
 			}
 		}
@@ -130,7 +134,7 @@ func (s *sys) listOne(pq *mPq, q *mScq, path []string) []string {
 		for j := i + 1; j < len(order); j++ {
 			if definitelyBefore(order[j], order[i]) {
 				s.fail("C04", "list/children-order", "ListInvocationChildren(%v, QUEUED) lists %s (executing+1=%d prio %v last served %v) before %s (executing+1=%d prio %v last served %v), contrary to the documented order", path,
-					order[i].key, order[i].e, order[i].prios, order[i].last.Sub(epoch), order[j].key, order[j].e, order[j].prios, order[j].last.Sub(epoch))
+					order[i].key, order[i].e, order[i].prios, order[i].last.lo.Sub(epoch), order[j].key, order[j].e, order[j].prios, order[j].last.hi.Sub(epoch))
 				return nil
 			}
 		}
